@@ -291,7 +291,7 @@ func c10Eval(r *vkit.Run, t *c10Table, rt *route.HostTable, sdc *bfe_route.Serve
 }
 
 func c10(r *vkit.Run) {
-	r.SetRule("host tables generated as 1-3 families of overlapping names (base, *.base, l.base, *.l.base, l2.l.base, *.tld, ...; mixed case 1/4; IPv6-literal entry 1/10) spread over 1-4 products x 1-2 tags, VIP table (v4/v6, alternative spellings) and default product present/absent; written to files and loaded by LoadServerDataConf. Configured names are unique case-insensitively, have no trailing dot/port (statement is silent there). Request hosts are derived from every entry by mutation (case, :port, trailing dot, both, extra labels, sibling label, parent, garbage affixes; for wildcards one/two labels, bare suffix, no-dot boundary) plus generic hosts, each with no VIP / a listed VIP / an unlisted VIP. Hosts with empty labels, non-ASCII or '*' are excluded. Oracle: ref/route.Resolve. Non-trivial = table has >=1 exact and >=1 wildcard entry and the probe is derived from an entry; distinct = (table files, host, vip)." + c10ReloadRule)
+	r.SetRule("host tables generated as 1-3 families of overlapping names (base, *.base, l.base, *.l.base, l2.l.base, *.tld, ...; mixed case 1/4; IPv6-literal entry 1/10) spread over 1-4 products x 1-2 tags, VIP table (v4/v6, alternative spellings) and default product present/absent; written to files and loaded by LoadServerDataConf. Configured names are unique case-insensitively, have no trailing dot/port (statement is silent there). Request hosts are derived from every entry by mutation (case, :port, trailing dot, both, extra labels, sibling label, parent, garbage affixes; for wildcards one/two labels, bare suffix, no-dot boundary) plus generic hosts, each with no VIP / a listed VIP / an unlisted VIP. Hosts with empty labels, non-ASCII or '*' are excluded. Oracle: ref/route.Resolve. Non-trivial = table has >=1 exact and >=1 wildcard entry and the probe is derived from an entry; distinct = (table files, host, vip)." + c10ReloadRule + c10CaseRule)
 	r.Assume("reference chain written from the property statement; host-tag is compared only when a host entry decided")
 	r.Assume("reload family: 'the product of the virtual IP the connection arrived on' is read against the tables in force for the request (the snapshot bfe_server hands to findProduct in req.SvrDataConf), not against the tables in force when the connection was accepted")
 	if r.Replay != "" {
@@ -387,4 +387,5 @@ func c10(r *vkit.Run) {
 		}
 	}
 	c10Reload(r) // tables at accept time != tables at request time (c10reload.go)
+	c10Case(r)   // every letter at every position, request side and table side (c10case.go)
 }
